@@ -89,6 +89,18 @@ pub fn walk(ctx: &mut Ctx, g: &Guarded, bi: &BootInformation) {
         ctx.ln("tags_nth", format!("{} {}", k, v));
     }
     ctx.ln("tags_count", gv(|| bi.tags().count()));
+    let r = guard(|| {
+        let mut it = bi.tags();
+        let first = it.next().is_some();
+        (first, it.clone().count())
+    });
+    ctx.ln(
+        "tags_clone",
+        match r {
+            Ok((first, rest)) => format!("VAL first={} rest={}", first, rest),
+            Err(()) => "PANIC".to_string(),
+        },
+    );
 }
 
 pub fn modules(ctx: &mut Ctx, g: &Guarded, bi: &BootInformation) {
